@@ -1350,6 +1350,13 @@ def suite_extlattice(rng, tier):
         # first-fragment header of exactly 4095 / 4096 bytes of GSE length (5 + label + extensions): the largest
         # header that still fits carries no payload, one more byte must be refused
         [(0x0042, bytes(4088))], [(0x0042, bytes(4089))], [(0x0042, bytes(4082))], [(0x0042, bytes(4083))],
+        # long chains (the walker must follow any number of extensions) and mandatory extensions with more data
+        # than any optional one can carry (9 … 255 bytes: what a manager's u8 can announce)
+        [(0x0101 + k, b"") for k in range(8)], [(0x0101 + k, b"") for k in range(9)], [(0x0101 + k, b"") for k in range(16)],
+        [(0x0101 + k, b"") for k in range(17)], [(0x0101 + k, b"") for k in range(32)], [(0x0101 + k, b"") for k in range(33)],
+        [(0x0101 + k, b"") for k in range(40)] + [(0x0042, b"abc")],
+        [(0x0042, bytes(range(9)))], [(0x0042, bytes(range(12)))], [(0x0042, bytes(range(100)))], [(0x0042, bytes(range(254)))],
+        [(0x0042, bytes(range(255)))], [(0x0301, bytes(4)), (0x0090, bytes(range(9)))], [(0x0090, bytes(range(255)))],
     ]
     mgr = {0x42: ("N", 3), 0x43: ("N", 0), 0x81: ("F", 0), 0x90: ("F", 2), 0x55: ("N", 5)}
     for ch in chains:
@@ -1370,11 +1377,13 @@ def suite_extlattice(rng, tier):
                             continue
                         s = Session("extl%d" % n)
                         n += 1
-                        big = len(ch[0][1]) > 100
+                        big = any(len(d) > 255 for _, d in ch)
                         mg = dict(mgr)
                         if big:
                             mg[0x42] = ("N", min(255, len(ch[0][1])))
                             s.strict = False       # a manager cannot describe more than 255 data bytes
+                        elif ch[0][0] == 0x42:
+                            mg[0x42] = ("N", len(ch[0][1]))
                         if pt >= 0x600:
                             for eid, ed in ch:      # every mandatory extension is used as a non-final one
                                 if eid < 0x100:
@@ -1401,6 +1410,17 @@ def suite_extlattice(rng, tier):
                     s.enc("new")
                     s.encap(bs_gen(n, pl), 3, pt, lab, bs_zero(bl), exts=ch)
                     out.append(s)
+    # extension areas around 64 KiB (a length squeezed into 16 bits would wrap): refused, never a packet
+    for elen in (65524, 65530, 65533, 65534, 65535, 65536, 65540):
+        for ch in ([(0x0042, bytes(elen))], [(0x0042, bytes(elen - 10)), (0x0301, bytes(4))]):
+            for bl in (20, 70000, 140000):
+                s = Session("extgiant%d" % n)
+                n += 1
+                s.strict = False
+                s.enc("new")
+                s.encap(bs_gen(n, 5), 3, 0x0800, LBL_A6, bs_const(0xAA, bl), exts=ch)
+                s.encap(bs_gen(n, 5), 3, 0x0800, LBL_A6, bs_zero(64))
+                out.append(s)
     # encap_ext with an EMPTY extension list (refused: ErrorNoExtensionFound), for every label kind / size
     for lab in (LBL_A6, LBL_A3, LBL_BC, LBL_RU):
         for pt in (0x0800, 0x0081, 0x0100):
